@@ -27,9 +27,14 @@ var Solvers = []Solver{
 
 // runSolver runs a script and returns one verdict per check-sat.
 func runSolver(s Solver, file string, n int, timeoutMs int) ([]string, time.Duration) {
+	return runSolverCtx(context.Background(), s, file, n, timeoutMs)
+}
+
+// runSolverCtx: as runSolver; the solver process is killed when parent is cancelled.
+func runSolverCtx(parent context.Context, s Solver, file string, n int, timeoutMs int) ([]string, time.Duration) {
 	start := time.Now()
 	args := s.Cmd(file, timeoutMs)
-	ctx, cancel := context.WithTimeout(context.Background(), time.Duration(timeoutMs*(n+2)+20000)*time.Millisecond)
+	ctx, cancel := context.WithTimeout(parent, time.Duration(timeoutMs*(n+2)+20000)*time.Millisecond)
 	defer cancel()
 	cmd := exec.CommandContext(ctx, args[0], args[1:]...)
 	var out bytes.Buffer
